@@ -59,7 +59,7 @@ func runC11(r *Run) {
 		return
 	}
 	ws := newWriteSummary(r.Prog)
-	reach := r.Prog.reachableFuncs(roots...)
+	reach := dReachable(r.Prog, roots...)
 
 	// R1
 	type grp struct {
@@ -178,7 +178,7 @@ func c11Effectful(r *Run, fn *ssa.Function, memo map[*ssa.Function]bool) []ssa.C
 		}
 		has, seen := memo[callee]
 		if !seen {
-			has = len(effectsOf(r.Prog.reachableFuncs(callee))) > 0
+			has = len(effectsOf(dReachable(r.Prog, callee))) > 0
 			memo[callee] = has
 		}
 		if has {
@@ -265,7 +265,7 @@ func c11HasWrite(r *Run, fn *ssa.Function, ci ssa.CallInstruction) bool {
 	if callee == nil {
 		return false
 	}
-	for _, e := range effectsOf(r.Prog.reachableFuncs(callee)) {
+	for _, e := range effectsOf(dReachable(r.Prog, callee)) {
 		if isWriteVerb(e.Verb) {
 			return true
 		}
@@ -324,7 +324,7 @@ func c11RequestGet(r *Run, fn *ssa.Function, req ssa.Value, memo map[*ssa.Functi
 
 // c11WrittenObjects implements R3(b): provenance of every object handed to an API write.
 func c11WrittenObjects(r *Run, name string, rec *ssa.Function) {
-	reach := r.Prog.reachableFuncs(rec)
+	reach := dReachable(r.Prog, rec)
 	recTypes := dReconcilerTypes(r.Prog)
 	for _, e := range effectsOf(reach) {
 		if !isWriteVerb(e.Verb) {
